@@ -7,7 +7,7 @@ From Flocq Require Import Core BinarySingleNaN.
 From SV Require Import Num.Mod360 Num.Mod360Proofs Num.AngleSites Num.AngleSitesProofs
                        Num.Dec6 Num.Dec6Proofs Num.Dec6CarveProofs Num.VecText Num.VecTextProofs Num.Mod360Id Num.VecTextFloat SM.FrozenOps SM.FrozenOpsProofs SM.FrozenCopy SM.FrozenCopyProofs
                        SM.FrozenCopyValue SM.FrozenCopyValueProofs Num.AngleText Num.AngleTextProofs
-                       Num.AngleCtor Num.AngleCtorProofs SM.FrozenHash SM.FrozenHashProofs Num.SpecStrip Num.SpecStripProofs.
+                       Num.AngleCtor Num.AngleCtorProofs SM.FrozenHash SM.FrozenHashProofs Num.SpecStrip Num.SpecStripProofs Num.C05Whole.
 Import ListNotations.
 
 (** ------------------------------------------------------------------ (a) range *)
@@ -427,3 +427,21 @@ Theorem c05_vec_text_roundtrip : forall pc c (x y z : b64) ws1 ob wa s1 s2 wb cb
     forall d v, In (d, v) [(d1, x); (d2, y); (d3, z)] ->
       (Rabs (py_float d - B2R v) <= 5 / 10000000 + / 2 * ulp radix2 (FLT_exp (-1074) 53) (dec_R d))%R.
 Proof. exact vec_text_roundtrip. Qed.
+
+(** ------------------------------------------------------------------ THE WHOLE PROPERTY (round 4) *)
+
+(** One statement over everything the translator reads from math.py ([c05_source]: store sites, creations, constructor
+    dispatch, mutation census, result kinds, copy shapes, hash kinds, in-place methods, the format_float / parse_vec_str /
+    __format__ pipelines).  If the boolean checks [c05_source_ok] hold - the check evaluates them on today's generated
+    objects on every run (obligation whole_property_hypotheses_hold, and each conjunct under its own name) - then:
+    angle slots stay in [0, 360) along every history of stores and out of every constructor form; frozen objects and
+    non-receivers never change and the hash of a frozen object is stable and equal for equal values; a copy has the
+    promised class and the value of its source; the text of a component is a plain decimal ("-0" exactly on the
+    carved-out class), str -> from_str returns to within 5e-7 + ulp/2 (on the circle for angles, in range again), and
+    format(obj, spec) only drops trailing zeros of a fixed-point fraction.  Remaining assumptions are visible in the
+    clauses: finite operands ([finite_inputs], [supplied_ok]), float() correctly rounded ([py_float]), public calls only
+    ([good_history]). *)
+Theorem c05_property : forall s, c05_source_ok s = true ->
+  whole_range s /\ whole_ctor s /\ whole_frozen s /\ whole_independent s /\ whole_hash s /\ whole_copy_value s /\
+  whole_text_shape s /\ whole_angle_roundtrip s /\ whole_vec_roundtrip s /\ whole_format_spec s.
+Proof. exact c05_whole. Qed.
